@@ -17,6 +17,7 @@ type Form struct {
 	Neg  bool
 	Kids []*Form
 	Vars []*types.Var // unexpanded locals the atom mentions (kill candidates)
+	Deps []*types.Var // locals the atom's text was expanded through (the fact is about that definition)
 }
 
 // String is the canonical signed form.
@@ -43,6 +44,7 @@ func (fm *Form) String() string {
 type Atom struct {
 	S    string // signed: "x" or "!x"
 	Vars []*types.Var
+	Deps []*types.Var
 }
 
 // Implied returns the atoms that hold when fm is true: an atom yields itself,
@@ -51,7 +53,7 @@ type Atom struct {
 func (fm *Form) Implied() []Atom {
 	switch fm.Op {
 	case 'a':
-		return []Atom{{fm.String(), fm.Vars}}
+		return []Atom{{fm.String(), fm.Vars, fm.Deps}}
 	case '&':
 		var out []Atom
 		for _, k := range fm.Kids {
@@ -59,11 +61,23 @@ func (fm *Form) Implied() []Atom {
 		}
 		return out
 	}
-	var vs []*types.Var
+	var vs, ds []*types.Var
 	for _, k := range fm.Kids {
 		vs = append(vs, k.allVars()...)
+		ds = append(ds, k.allDeps()...)
 	}
-	return []Atom{{fm.String(), vs}}
+	return []Atom{{fm.String(), vs, ds}}
+}
+
+func (fm *Form) allDeps() []*types.Var {
+	if fm.Op == 'a' {
+		return fm.Deps
+	}
+	var vs []*types.Var
+	for _, k := range fm.Kids {
+		vs = append(vs, k.allDeps()...)
+	}
+	return vs
 }
 
 func (fm *Form) allVars() []*types.Var {
@@ -86,8 +100,10 @@ func Negate(s string) string {
 }
 
 type former struct {
-	g     *Graph
-	depth int
+	g       *Graph
+	depth   int
+	pending []*types.Var // deps collected by norm since the last atom
+	inherit []*types.Var // boolean locals being expanded (stack)
 }
 
 // Formula builds the NNF of "e is pol" as evaluated at point at.
@@ -145,7 +161,7 @@ func eqOrder(a, b string) (string, string) {
 }
 
 func (fr *former) norm(e ast.Expr, at Point, vars *[]*types.Var) string {
-	n := normalizer{f: fr.g.Fn, depth: fr.depth}
+	n := normalizer{f: fr.g.Fn, depth: fr.depth, deps: &fr.pending}
 	s := n.expr(e, &at)
 	// collect unexpanded locals: identifiers that stayed local<T>
 	if strings.Contains(s, "local:") {
@@ -162,7 +178,9 @@ func (fr *former) norm(e ast.Expr, at Point, vars *[]*types.Var) string {
 }
 
 func (fr *former) atom(s string, pol bool, vars []*types.Var) *Form {
-	return &Form{Op: 'a', S: s, Neg: !pol, Vars: vars}
+	deps := append(append([]*types.Var{}, fr.inherit...), fr.pending...)
+	fr.pending = nil
+	return &Form{Op: 'a', S: s, Neg: !pol, Vars: vars, Deps: deps}
 }
 
 func (fr *former) form(e ast.Expr, pol bool, at Point) *Form {
@@ -264,6 +282,13 @@ func (fr *former) form(e ast.Expr, pol bool, at Point) *Form {
 					d := keep[0]
 					fr.depth++
 					defer func() { fr.depth-- }()
+					if len(ds) == 1 {
+						// the fact is about this definition of v (not for
+						// constant-filtered flag definitions, which the
+						// flag-sensitive reachability handles)
+						fr.inherit = append(fr.inherit, v)
+						defer func() { fr.inherit = fr.inherit[:len(fr.inherit)-1] }()
+					}
 					switch d.Kind {
 					case DefPlain:
 						if d.RHS != nil && !freshObject(f, d.RHS) {
